@@ -324,6 +324,26 @@ func buildCatalogue(seed int64, rec *hook.Recorder, want int, withSpec bool) map
 		add(schemaCall("os-badnum", []byte(`{"type":"integer","maximum":5,"enum":[1,2]}`), []byte([]string{"1.5", "1e400", "3"}[i%3]), "oneshot-number"))
 		add(schemaCall("sv-recycle-badnum", []byte(`{"type":"number","minimum":2,"allOf":[{"maximum":10}]}`), []byte([]string{"1e400", "7", "1"}[i%3]), "recycle-number"))
 	}
+	// a nil schema is a legal argument (nothing to validate against: the call returns nil / the shared empty result)
+	for i := 0; i < want; i++ {
+		i := i
+		c := &call{Class: "os-nilschema", Desc: fmt.Sprintf("AgainstSchema(nil schema) #%d", i)}
+		c.run = func(reg strfmt.Registry) string {
+			data := []interface{}{nil, "x", 3.0, map[string]interface{}{"a": 1.0}}[i%4]
+			if i%2 == 0 {
+				if err := validate.AgainstSchema(nil, data, reg); err != nil {
+					return "invalid E" + strings.Join(compositeMessages(err), "|") + " W"
+				}
+				return outcomeOf(nil, nil)
+			}
+			res := validate.NewSchemaValidator(nil, nil, "", reg, validate.WithRecycleValidators(true)).Validate(data)
+			if res == nil {
+				return "nil"
+			}
+			return outcomeOf(res.Errors, res.Warnings)
+		}
+		add(c)
+	}
 	// parameters and headers, recycling, each used once (first-error exit included)
 	for len(cat["pv-recycle"]) < want || len(cat["hv-recycle"]) < want || len(cat["pv-recycle-invalid"]) < want {
 		def := gen.SimpleDef(r, 2)
